@@ -80,35 +80,34 @@ Qed.
 (* ------------------------------------------------------------------ *)
 (* unfolding of bp through top-level names for its local fixpoints     *)
 
-Definition cols_of (g : skel -> N -> list patch) : list skel -> N -> list (list patch) :=
-  fix cols (ns : list skel) (dn' : N) : list (list patch) :=
+Definition cols_of (g : skel -> N -> entry) : list skel -> N -> list entry :=
+  fix cols (ns : list skel) (dn' : N) : list entry :=
     match ns with
     | [] => []
     | nc :: ns' => g nc dn' :: cols ns' (dn' + size nc)
     end.
 
-Definition rows_of (f : skel -> skel -> N -> N -> list patch) (ncs : list skel) (dn : N)
-  : list skel -> N -> list (list (list patch)) :=
-  fix rows (os : list skel) (so' : N) : list (list (list patch)) :=
+Definition rows_of (f : skel -> skel -> N -> N -> entry) (ncs : list skel) (dn : N)
+  : list skel -> N -> list (list entry) :=
+  fix rows (os : list skel) (so' : N) : list (list entry) :=
     match os with
     | [] => []
     | oc :: os' =>
         cols_of (fun nc dn' => f oc nc so' dn') ncs dn :: rows os' (so' + size oc)
     end.
 
-Definition mk_table (ocs ncs : list skel) (so dn : N) : list (list (list patch)) :=
+Definition mk_table (ocs ncs : list skel) (so dn : N) : list (list entry) :=
   rows_of bp ncs dn ocs so.
 
 Lemma bp_unfold : forall o n so dn,
   bp o n so dn =
-  if nodes_match o n then [mkPatch so dn (size o)]
+  if nodes_match o n then ([mkPatch so dn (size o)], count_cells o)
   else match o, n with
        | FnCall ocs, FnCall ncs =>
            let table := mk_table ocs ncs so dn in
-           nodup patch_eq_dec
-             (collect table
-                (lcs_by_score (length ocs) (length ncs) (map (map score_of) table)))
-       | _, _ => []
+           let rs := lcs_by_score (length ocs) (length ncs) (map (map snd) table) in
+           (nodup patch_eq_dec (collect table rs), collect_cells table rs)
+       | _, _ => ([], 0)
        end.
 Proof. intros o n so dn. destruct o; reflexivity. Qed.
 
@@ -162,7 +161,7 @@ Proof.
 Qed.
 
 Lemma cols_of_nth : forall g ns dn j d, (j < length ns)%nat ->
-  nth j (cols_of g ns dn) [] = g (nth j ns d) (dn + offs ns j).
+  nth j (cols_of g ns dn) ([], 0) = g (nth j ns d) (dn + offs ns j).
 Proof.
   intros g ns. induction ns as [|x ns IH]; intros dn j d H; cbn [length] in H; [lia|].
   destruct j as [|j].
@@ -198,7 +197,7 @@ Qed.
 
 Lemma table_at_out : forall ocs ncs so dn i j,
   ~ ((i < length ocs)%nat /\ (j < length ncs)%nat) ->
-  table_at (mk_table ocs ncs so dn) i j = [].
+  table_at (mk_table ocs ncs so dn) i j = ([], 0).
 Proof.
   intros ocs ncs so dn i j H. unfold table_at, mk_table.
   destruct (Nat.lt_ge_cases i (length ocs)) as [Hi|Hi].
@@ -222,7 +221,7 @@ Fixpoint commons (rs : list diff_result) : list (nat * nat) :=
 Definition lt2 (a b : nat * nat) : Prop := (fst a < fst b)%nat /\ (snd a < snd b)%nat.
 
 Lemma collect_commons : forall T rs,
-  collect T rs = flat_map (fun c => table_at T (fst c) (snd c)) (commons rs).
+  collect T rs = flat_map (fun c => fst (table_at T (fst c) (snd c))) (commons rs).
 Proof.
   intros T rs. induction rs as [|[i j|i|j] rs IH]; cbn [collect commons flat_map fst snd]; auto.
   now rewrite IH.
@@ -239,7 +238,8 @@ Proof.
     eapply Forall_impl; [|exact HF]. cbn. intros; lia.
   - apply IH; cbn [commons]; auto.
     eapply Forall_impl; [|exact HF]. cbn. intros; lia.
-  - destruct (0 <? score_at scores i j).
+  - destruct ((0 <? score_at scores i j) &&
+              (dp_at dp (S i) (S j) =? dp_at dp i j + score_at scores i j)).
     + apply IH; cbn [commons].
       * constructor; [exact HS|]. eapply Forall_impl; [|exact HF].
         intros [a b]. unfold lt2. cbn. lia.
@@ -300,15 +300,15 @@ Definition within (so szo dn szn : N) (p : patch) : Prop :=
   so <= p_src p /\ p_src p + p_sz p <= so + szo /\
   dn <= p_dst p /\ p_dst p + p_sz p <= dn + szn.
 
-Lemma blocks_sorted : forall (T : list (list (list patch))) (A B : nat -> N),
+Lemma blocks_sorted : forall (T : list (list entry)) (A B : nat -> N),
   (forall i i', (i <= i')%nat -> A i <= A i') ->
   (forall j j', (j <= j')%nat -> B j <= B j') ->
-  (forall i j, StronglySorted before (table_at T i j)) ->
-  (forall i j p, In p (table_at T i j) ->
+  (forall i j, StronglySorted before (fst (table_at T i j))) ->
+  (forall i j p, In p (fst (table_at T i j)) ->
      A i <= p_src p /\ p_src p + p_sz p <= A (S i) /\
      B j <= p_dst p /\ p_dst p + p_sz p <= B (S j)) ->
   forall cs, StronglySorted lt2 cs ->
-  StronglySorted before (flat_map (fun c => table_at T (fst c) (snd c)) cs).
+  StronglySorted before (flat_map (fun c => fst (table_at T (fst c) (snd c))) cs).
 Proof.
   intros T A B HA HB HS HIn cs Hcs.
   induction Hcs as [|c cs Hcs IH HF]; cbn [flat_map]; [constructor|].
@@ -325,13 +325,13 @@ Proof. reflexivity. Qed.
 
 Definition bp_ok (o : skel) : Prop :=
   forall n so dn,
-    StronglySorted before (bp o n so dn) /\
-    Forall (within so (size o) dn (size n)) (bp o n so dn).
+    StronglySorted before (fst (bp o n so dn)) /\
+    Forall (within so (size o) dn (size n)) (fst (bp o n so dn)).
 
 Lemma table_blocks : forall ocs ncs so dn, Forall bp_ok ocs ->
   forall i j,
-    StronglySorted before (table_at (mk_table ocs ncs so dn) i j) /\
-    forall p, In p (table_at (mk_table ocs ncs so dn) i j) ->
+    StronglySorted before (fst (table_at (mk_table ocs ncs so dn) i j)) /\
+    forall p, In p (fst (table_at (mk_table ocs ncs so dn) i j)) ->
       so + offs ocs i <= p_src p /\ p_src p + p_sz p <= so + offs ocs (S i) /\
       dn + offs ncs j <= p_dst p /\ p_dst p + p_sz p <= dn + offs ncs (S j).
 Proof.
@@ -351,7 +351,7 @@ Qed.
 Lemma table_sorted : forall ocs ncs so dn, Forall bp_ok ocs ->
   forall cs, StronglySorted lt2 cs ->
   StronglySorted before
-    (flat_map (fun c => table_at (mk_table ocs ncs so dn) (fst c) (snd c)) cs).
+    (flat_map (fun c => fst (table_at (mk_table ocs ncs so dn) (fst c) (snd c))) cs).
 Proof.
   intros ocs ncs so dn IH cs Hcs.
   apply (blocks_sorted _ (fun i => so + offs ocs i) (fun j => dn + offs ncs j)); auto.
@@ -366,11 +366,11 @@ Proof.
   unfold bp_ok.
   induction o as [l|x|x|ocs IH] using skel_ind'; intros n so dn; rewrite bp_unfold;
     (destruct (nodes_match _ n) eqn:E;
-     [apply nodes_match_eq in E; subst n; split;
+     [apply nodes_match_eq in E; subst n; cbn [fst]; split;
       [repeat constructor | repeat constructor; cbn [p_src p_dst p_sz]; lia]|]);
     try (split; constructor).
   destruct n as [l|x|x|ncs]; try (split; constructor).
-  cbv zeta. rewrite collect_commons.
+  cbv zeta. cbn [fst]. rewrite collect_commons.
   set (cs := commons _).
   assert (Hcs : StronglySorted lt2 cs) by apply lcs_sorted.
   clearbody cs.
@@ -433,7 +433,7 @@ Proof.
   destruct (take_diff_before o n p q Hp Hq Hne) as [[H1 H2]|[H1 H2]]; lia.
 Qed.
 
-Lemma collect_In : forall T rs p, In p (collect T rs) -> exists i j, In p (table_at T i j).
+Lemma collect_In : forall T rs p, In p (collect T rs) -> exists i j, In p (fst (table_at T i j)).
 Proof.
   intros T rs p H. rewrite collect_commons in H.
   apply in_flat_map in H as [c [_ H]]. eauto.
@@ -451,7 +451,7 @@ Proof.
   cbn [subtree path_to_address p_src p_dst p_sz]. repeat split; try reflexivity; lia.
 Qed.
 
-Lemma bp_shape : forall o n so dn p, In p (bp o n so dn) ->
+Lemma bp_shape : forall o n so dn p, In p (fst (bp o n so dn)) ->
   exists (po pn : list nat) (t : skel) (a b : N),
     subtree o po = Some t /\ subtree n pn = Some t /\
     path_to_address o po = Some (a, p_sz p) /\
@@ -463,7 +463,7 @@ Proof.
      [apply nodes_match_eq in E; subst n; intros [<-|[]]; apply shape_root|]);
     try (intros []).
   destruct n as [l|x|x|ncs]; try (intros []).
-  cbv zeta. intros Hp. apply nodup_In in Hp. apply collect_In in Hp as [i [j Hp]].
+  cbv zeta. cbn [fst]. intros Hp. apply nodup_In in Hp. apply collect_In in Hp as [i [j Hp]].
   destruct (Nat.lt_ge_cases i (length ocs)) as [Hi|Hi];
     [destruct (Nat.lt_ge_cases j (length ncs)) as [Hj|Hj]|];
     try (rewrite table_at_out in Hp by lia; destruct Hp).
